@@ -100,6 +100,7 @@ pub fn check_c16(job: &JobSpec, r: &JobResult, src: &mut SrcLines) -> Option<Vio
     }
     match &r.obs.outcome {
         Outcome::Ok | Outcome::ArgsRejected(_) => None,
+        Outcome::Panic { file, .. } if file == crate::job::INJECTED => None,
         Outcome::Panic { file, line, msg } => {
             let key = panic_key(src, file, *line, msg);
             Some(Violation { class: "PANIC".into(), key, detail: format!("panicked at {}:{}: {}", file, line, msg) })
